@@ -80,6 +80,9 @@ enum Op {
   EvalAny(String),
   /// A malformed request: changes nothing; `true` = must be answered with errors.
   Malformed(bool),
+  /// A well-formed add sent with a missing or wrong media type: the service may refuse it (errors, no effect)
+  /// or be lenient (then it is an add like any other); the property demands neither.
+  MaybeAdd(String),
 }
 
 impl Op {
@@ -97,6 +100,7 @@ impl Op {
       Op::Tod(_) => "evaluate-time-of-day",
       Op::EvalAny(_) => "evaluate-any",
       Op::Malformed(_) => "malformed",
+      Op::MaybeAdd(_) => "malformed",
     }
   }
 }
@@ -342,8 +346,22 @@ fn build_request(s: &Setup, r: &Value) -> Built {
         "add_b64_invalid_utf8" => raw("POST", "/definitions/add", js, json!({"content": b64(&[0xff, 0xfe, 0x80, 0x41])}).to_string().into_bytes(), true),
         "add_b64_not_xml" => raw("POST", "/definitions/add", js, json!({"content": b64(b"hello, this is not XML")}).to_string().into_bytes(), true),
         "add_b64_xml_not_model" => raw("POST", "/definitions/add", js, json!({"content": b64(b"<a><b c=\"d\"/></a>")}).to_string().into_bytes(), true),
-        "add_no_content_type" => raw("POST", "/definitions/add", None, json!({"content": b64(xml(m).as_bytes())}).to_string().into_bytes(), true),
-        "add_wrong_content_type" => raw("POST", "/definitions/add", Some("text/plain"), json!({"content": b64(xml(m).as_bytes())}).to_string().into_bytes(), true),
+        "add_no_content_type" => Built {
+          method: "POST",
+          path: "/definitions/add".into(),
+          content_type: None,
+          body: json!({"content": b64(xml(m).as_bytes())}).to_string().into_bytes(),
+          op: Op::MaybeAdd(m.to_string()),
+          label: label.clone(),
+        },
+        "add_wrong_content_type" => Built {
+          method: "POST",
+          path: "/definitions/add".into(),
+          content_type: Some("text/plain"),
+          body: json!({"content": b64(xml(m).as_bytes())}).to_string().into_bytes(),
+          op: Op::MaybeAdd(m.to_string()),
+          label: label.clone(),
+        },
         "add_empty_body" => raw("POST", "/definitions/add", js, vec![], true),
         "replace_broken_json" => raw("POST", "/definitions/replace", js, b"[1, 2".to_vec(), true),
         "replace_invalid_base64" => raw("POST", "/definitions/replace", js, b"{\"content\": \"%%%\"}".to_vec(), true),
@@ -490,6 +508,13 @@ fn spec_step(s: &Setup, st: &SpecState, op: &Op, resp: &RespClass) -> Vec<SpecSt
       }
     }
     Op::EvalAny(_) => same(),
+    Op::MaybeAdd(key) => {
+      if is_data {
+        spec_step(s, st, &Op::Add(key.clone()), resp)
+      } else {
+        same()
+      }
+    }
     Op::Clear => {
       if is_data {
         vec![SpecState { stored: vec![], deployed: BTreeMap::new() }]
@@ -927,6 +952,7 @@ fn worker_main(w: WorkerCtx, s: &'static Setup) {
           let cut = netf.get("truncate").map(|v| !v.is_null()).unwrap_or(false);
           built_op = match &built.op {
             Op::Malformed(m) => Op::Malformed(*m),
+            Op::MaybeAdd(_) => Op::Malformed(true),
             _ if hard || (json_endpoint && cut) => Op::Malformed(true),
             Op::EvalD(n) | Op::Echo(n, _, _) | Op::Tod(n) | Op::EvalAny(n) => Op::EvalAny(n.clone()),
             other => other.clone(),
